@@ -634,7 +634,7 @@ def gen(seed, path="holder") -> dict:
             t = g.choice(touched) if touched and g.random() < 0.8 else g.choice(universe)
             ops.append(["drop", [t]])
         elif ops and allow_rename and r < 0.38:
-            npairs = 1 if g.random() < 0.8 else g.choice([2, 2, 3])
+            npairs = 1 if g.random() < 0.7 else g.choice([2, 3, 3, 4])
             pairs = []
             for _ in range(npairs):
                 x = g.choice(touched) if touched and g.random() < 0.8 else g.choice(universe)
